@@ -26,16 +26,21 @@ The accepted value types fall into three classes, by what the value builder does
 The decode statements were proved for Utf8 / LargeUtf8 only (`coveredF`).  Here:
 
   C01_build_decode''   `C01_build_decode'` with `coveredWF` for `coveredF`: classes (a) without Utf8View and (b), at any nesting
-  C03_wfS'', C03_wf''  `C03_wfS'` / `C03_wf'` with `Safe ∨ coveredPF` for `Safe ∨ coveredF`: classes (a) INCLUDING Utf8View and (b)
+  C03_wfS_px, C03_wf_px  `C03_wfS'` / `C03_wf'` with `Safe ∨ coveredPF px` for `Safe ∨ coveredF` and, for `px = true`, `ExtNoEmpty ext`
+  C03_wfS'', C03_wf''  the instance `px = false`: classes (a) INCLUDING Utf8View and (b); no hypothesis on the parsers
+  C03_wf'''            the instance `px = true`: additionally class (c) WITHOUT the nested dictionary, for parsers that accept no
+                       empty string (`ExtNoEmpty`; a theorem for the codec models: Props/C03Dict.lean `codecExt_noEmpty`, `C03_wf_codec''`)
   C01_build_decode'_of'', C03_wf'_of''   the former statements are the special cases (kept; every caller still works)
 
 The step that needed `coveredF` was `Sound` of the final state (the placeholder key 0 of a dictionary with non-nullable keys
 designates the dummy `""` that `into_array` appends — which needs a value builder that takes `""`).  For class (b) the
-placeholder push FAILS, so a successful `to_marrow` never went through it (`Lemmas.C03.Sound_of_finishH`).
+placeholder push FAILS, so a successful `to_marrow` never went through it (`Lemmas.C03.Sound_of_finishH`); for the parsed
+kinds of class (c) it fails as well when the parsers refuse `""` (`Lemmas.C03.pushScalar_parsesStr_empty`).
 
-Still open — class (c), and Utf8View for C01 — see `notes/wave10-dict.md`: the state fact "values decoded = index entries
-interpreted at V" depends on `ext` and is not part of `WFB` / `WFH`; and for class (c) the model's `finish` discards the row
-the placeholder push would append (`appendEmptyStr` is the identity on a leaf / dictionary array).
+Still open — see `notes/wave10-dict.md`: class (c) and Utf8View for C01 (the state fact "values decoded = index entries
+interpreted at V" depends on `ext` and is not part of `WFB` / `WFH`); a nested dictionary as value type for C03 outside `Safe`
+(the model's `finish` discards the rows the placeholder push appends to the inner dictionary: `appendEmptyStr` is the identity
+on a dictionary array; the crate succeeds there).
 -/
 namespace SaModel.Props.C01
 open SaModel SaModel.Build SaModel.Spec
@@ -108,17 +113,24 @@ example : (newDT "$.d" (.dictionary .uint8 .utf8View) false []).isOk = true ∧
 /-! ## the schema predicates -/
 
 /-- `coveredF ⊆ coveredWF ⊆ coveredPF` -/
-theorem coveredPF_of_coveredF {fields : List Field} (h : fields.all Build.coveredF = true) :
-    fields.all Lemmas.C03.coveredPF = true := Lemmas.C03.all_coveredPF_of_coveredF h
+theorem coveredPF_of_coveredF {px : Bool} {fields : List Field} (h : fields.all Build.coveredF = true) :
+    fields.all (Lemmas.C03.coveredPF px) = true := Lemmas.C03.all_coveredPF_of_coveredF h
 
 /-- what `coveredW` excludes at a dictionary: exactly an integer key with a class (c) value type or Utf8View -/
 theorem coveredW_dict (k v : DataType) :
     coveredW (.dictionary k v) = (!isIntDT k || (!dictValOpen v && coveredW v)) := by simp only [coveredW]
 
-/-- what `coveredP` excludes at a dictionary: exactly an integer key with a class (c) value type -/
-theorem coveredP_dict (k v : DataType) :
-    Lemmas.C03.coveredP (.dictionary k v) = (!isIntDT k || (!Lemmas.C03.dictValParsed v && Lemmas.C03.coveredP v)) := by
+/-- what `coveredP px` excludes at a dictionary: exactly an integer key with a nested Dictionary as value type or — for
+`px = false` — a parsed value type (Date32, Date64, Time32, Time64, Timestamp, Duration, Decimal128) -/
+theorem coveredP_dict (px : Bool) (k v : DataType) :
+    Lemmas.C03.coveredP px (.dictionary k v) =
+      (!isIntDT k || (!Lemmas.C03.dictValExcl px v && Lemmas.C03.coveredP px v)) := by
   simp only [Lemmas.C03.coveredP]
+
+/-- `dictValExcl`, by cases -/
+example : Lemmas.C03.dictValExcl false .date32 = true ∧ Lemmas.C03.dictValExcl true .date32 = false ∧
+    Lemmas.C03.dictValExcl true (.dictionary .int8 .utf8) = true ∧ Lemmas.C03.dictValExcl false .utf8View = false ∧
+    Lemmas.C03.dictValExcl false .int32 = false := by decide
 
 /-! ## C01 -/
 
@@ -174,8 +186,8 @@ theorem C01_build_decode'' (ext : Ext) (fields : List Field) (rows : List SVal) 
     simp only [Lemmas.C03.decHRoot, List.mem_map] at hc
     obtain ⟨c', hc', rfl⟩ := hc
     exact det_root_cols hw hd c' hc'
-  obtain ⟨root, hrun, hdec⟩ := Lemmas.C03.toMarrow_decode_of_WFHW ext fields rows arrs hschema
-    (Lemmas.C03.all_coveredPF_of_coveredWF hcov)
+  obtain ⟨root, hrun, hdec⟩ := Lemmas.C03.toMarrow_decode_of_WFHW (px := false) ext (fun hpx => by cases hpx)
+    fields rows arrs hschema (Lemmas.C03.all_coveredPF_of_coveredWF hcov)
     (fun r hr => let ⟨_, _, hw, _⟩ := hfacts r hr; hw) hrootdet h
   obtain ⟨root0, h0, hw, hd⟩ := hfacts root hrun
   obtain ⟨hall, hcols, p, fs, cached, next, seen, rfl, hdecr⟩ :=
@@ -250,14 +262,16 @@ example : (do let root ← runRows {} exDictRefusingFields exDictRefusingRows; p
 
 /-! ## C03 -/
 
-/-- **C03 (structural half) on `Safe ∨ coveredPF`.**  `C03_wfS'` with the second alternative `coveredF` weakened to
-`coveredPF`: every integer-keyed dictionary has a value type whose builder stores strings (Utf8, LargeUtf8, Utf8View) or
-refuses them (class (b) above).  What is still excluded: a schema that is neither `Safe` nor `coveredPF` — a dictionary with
-NON-nullable keys below a nullable struct / fixed-size list whose value type is Date32, Date64, Time32, Time64, Timestamp,
-Duration, Decimal128 or a Dictionary. -/
-theorem C03_wfS'' (ext : Ext) (fields : List Field) (rows : List SVal) (arrs : List Arr)
+/-- **C03 (structural half) on `Safe ∨ coveredPF px`.**  `C03_wfS'` with the second alternative `coveredF` weakened to
+`coveredPF px`.  `px = false`: every integer-keyed dictionary has a value type whose builder stores strings (Utf8, LargeUtf8,
+Utf8View) or refuses them (class (b) above); still excluded is a schema that is neither `Safe` nor `coveredPF false` — a
+dictionary with NON-nullable keys below a nullable struct / fixed-size list whose value type is Date32, Date64, Time32,
+Time64, Timestamp, Duration, Decimal128 or a Dictionary.  `px = true` (then `hne : ExtNoEmpty ext` is asked): the parsed value
+types are admitted too, only the nested Dictionary stays excluded. -/
+theorem C03_wfS_px (px : Bool) (ext : Ext) (hne : px = true → Lemmas.C03.ExtNoEmpty ext)
+    (fields : List Field) (rows : List SVal) (arrs : List Arr)
     (hschema : ∀ f ∈ fields, Lemmas.C03.SchemaOKF f)
-    (hsafe : (∀ root0, newRoot fields = .ok root0 → Safe root0) ∨ fields.all Lemmas.C03.coveredPF = true)
+    (hsafe : (∀ root0, newRoot fields = .ok root0 → Safe root0) ∨ fields.all (Lemmas.C03.coveredPF px) = true)
     (hext : Lemmas.C03.ExtOK ext)
     (hrows : ∀ x ∈ rows, Lemmas.C03.SValOK x)
     (h : toMarrow ext fields rows = .ok arrs) :
@@ -276,7 +290,7 @@ theorem C03_wfS'' (ext : Ext) (fields : List Field) (rows : List SVal) (arrs : L
       obtain ⟨root0, h0⟩ := h0
       obtain ⟨hw, _, hl, _⟩ := runRows_rows' ext fields rows root0 root h0 hrun
       exact ⟨hw, hl⟩
-    obtain ⟨hlen, n, hall⟩ := Lemmas.C03.C03_wf_of_WFHW ext fields rows arrs hschema hcov hext hrows
+    obtain ⟨hlen, n, hall⟩ := Lemmas.C03.C03_wf_of_WFHW ext hne fields rows arrs hschema hcov hext hrows
       (fun r hr => (hwfh r hr).1) h
     refine ⟨hlen, ?_⟩
     intro j f a hfj haj
@@ -284,7 +298,7 @@ theorem C03_wfS'' (ext : Ext) (fields : List Field) (rows : List SVal) (arrs : L
     refine ⟨hwf, ?_⟩
     obtain ⟨root, hrun, rest, hba⟩ := Props.C03.toMarrow_split ext fields rows arrs h
     have hw := (hwfh root hrun).1
-    have hs := (Lemmas.C03.root_factsW ext fields rows root _ hschema hcov hw hrun hba).2.1
+    have hs := (Lemmas.C03.root_factsW ext hne fields rows root _ hschema hcov hw hrun hba).2.1
     cases root with
     | struct p len v fs cached next seen =>
       simp only [buildArrays, bind, Except.bind] at hba
@@ -323,20 +337,21 @@ theorem C03_wfS'' (ext : Ext) (fields : List Field) (rows : List SVal) (arrs : L
             omega
     | _ => simp [buildArrays, panic] at hba
 
-/-- **C03, the headline (`Spec.WF` = `Spec.WFS` ∧ `Spec.typeOf a = f.dataType`) on `Safe ∨ coveredPF`.**  `C03_wf'` with the
-second alternative weakened as in `C03_wfS''`; the other hypotheses unchanged (`hschema`: no `FixedSizeBinary(0)`; `hplain`:
+/-- **C03, the headline (`Spec.WF` = `Spec.WFS` ∧ `Spec.typeOf a = f.dataType`) on `Safe ∨ coveredPF px`.**  `C03_wf'` with the
+second alternative weakened as in `C03_wfS_px`; the other hypotheses unchanged (`hschema`: no `FixedSizeBinary(0)`; `hplain`:
 no metadata on a Map's entries field; `hext`; `hrows`). -/
-theorem C03_wf'' (ext : Ext) (fields : List Field) (rows : List SVal) (arrs : List Arr)
+theorem C03_wf_px (px : Bool) (ext : Ext) (hne : px = true → Lemmas.C03.ExtNoEmpty ext)
+    (fields : List Field) (rows : List SVal) (arrs : List Arr)
     (hschema : ∀ f ∈ fields, Lemmas.C03.SchemaOKF f)
     (hplain : ∀ f ∈ fields, Lemmas.C03.PlainF f)
-    (hsafe : (∀ root0, newRoot fields = .ok root0 → Safe root0) ∨ fields.all Lemmas.C03.coveredPF = true)
+    (hsafe : (∀ root0, newRoot fields = .ok root0 → Safe root0) ∨ fields.all (Lemmas.C03.coveredPF px) = true)
     (hext : Lemmas.C03.ExtOK ext)
     (hrows : ∀ x ∈ rows, Lemmas.C03.SValOK x)
     (h : toMarrow ext fields rows = .ok arrs) :
     arrs.length = fields.length ∧
     ∀ (j : Nat) (f : Field) (a : Arr), fields[j]? = some f → arrs[j]? = some a →
       WF f a = true ∧ (decodeAll a).length = rows.length := by
-  obtain ⟨hlen, hall⟩ := C03_wfS'' ext fields rows arrs hschema hsafe hext hrows h
+  obtain ⟨hlen, hall⟩ := C03_wfS_px px ext hne fields rows arrs hschema hsafe hext hrows h
   have h0 : ∃ root0, newRoot fields = .ok root0 := by
     simp only [toMarrow, bind, Except.bind] at h
     cases hr : newRoot fields with
@@ -347,6 +362,49 @@ theorem C03_wf'' (ext : Ext) (fields : List Field) (rows : List SVal) (arrs : Li
   refine ⟨hlen, fun j f a hf ha => ?_⟩
   obtain ⟨hw, hn⟩ := hall j f a hf ha
   exact ⟨Lemmas.C03.WF_of_WFS f a hw (hstrict f (List.mem_of_getElem? hf)), hn⟩
+
+/-- **`C03_wfS'` on `Safe ∨ coveredPF false`** (value types that store or refuse strings; no hypothesis on the parsers) -/
+theorem C03_wfS'' (ext : Ext) (fields : List Field) (rows : List SVal) (arrs : List Arr)
+    (hschema : ∀ f ∈ fields, Lemmas.C03.SchemaOKF f)
+    (hsafe : (∀ root0, newRoot fields = .ok root0 → Safe root0) ∨ fields.all (Lemmas.C03.coveredPF false) = true)
+    (hext : Lemmas.C03.ExtOK ext)
+    (hrows : ∀ x ∈ rows, Lemmas.C03.SValOK x)
+    (h : toMarrow ext fields rows = .ok arrs) :
+    arrs.length = fields.length ∧
+    ∀ (j : Nat) (f : Field) (a : Arr), fields[j]? = some f → arrs[j]? = some a →
+      WFS f a = true ∧ (decodeAll a).length = rows.length :=
+  C03_wfS_px false ext (fun hpx => by cases hpx) fields rows arrs hschema hsafe hext hrows h
+
+/-- **`C03_wf'` on `Safe ∨ coveredPF false`** -/
+theorem C03_wf'' (ext : Ext) (fields : List Field) (rows : List SVal) (arrs : List Arr)
+    (hschema : ∀ f ∈ fields, Lemmas.C03.SchemaOKF f)
+    (hplain : ∀ f ∈ fields, Lemmas.C03.PlainF f)
+    (hsafe : (∀ root0, newRoot fields = .ok root0 → Safe root0) ∨ fields.all (Lemmas.C03.coveredPF false) = true)
+    (hext : Lemmas.C03.ExtOK ext)
+    (hrows : ∀ x ∈ rows, Lemmas.C03.SValOK x)
+    (h : toMarrow ext fields rows = .ok arrs) :
+    arrs.length = fields.length ∧
+    ∀ (j : Nat) (f : Field) (a : Arr), fields[j]? = some f → arrs[j]? = some a →
+      WF f a = true ∧ (decodeAll a).length = rows.length :=
+  C03_wf_px false ext (fun hpx => by cases hpx) fields rows arrs hschema hplain hsafe hext hrows h
+
+/-- **`C03_wf'` on `Safe ∨ coveredPF true`, for parsers that accept no empty string** (`ExtNoEmpty ext`: what chrono, the span
+parser and the decimal parser do; a theorem for the codec models, `Props.C03.codecExt_noEmpty`).  Admitted in addition: the
+PARSED value types Date32, Date64, Time32, Time64, Timestamp, Duration, Decimal128 — with non-nullable keys hidden below a null
+the placeholder `serialize_str("")` of `into_array` fails on them, so no successful run took that branch.  Excluded by both
+alternatives: only a NESTED dictionary as the value type of a dictionary with non-nullable keys below a nullable struct /
+fixed-size list. -/
+theorem C03_wf''' (ext : Ext) (hne : Lemmas.C03.ExtNoEmpty ext) (fields : List Field) (rows : List SVal) (arrs : List Arr)
+    (hschema : ∀ f ∈ fields, Lemmas.C03.SchemaOKF f)
+    (hplain : ∀ f ∈ fields, Lemmas.C03.PlainF f)
+    (hsafe : (∀ root0, newRoot fields = .ok root0 → Safe root0) ∨ fields.all (Lemmas.C03.coveredPF true) = true)
+    (hext : Lemmas.C03.ExtOK ext)
+    (hrows : ∀ x ∈ rows, Lemmas.C03.SValOK x)
+    (h : toMarrow ext fields rows = .ok arrs) :
+    arrs.length = fields.length ∧
+    ∀ (j : Nat) (f : Field) (a : Arr), fields[j]? = some f → arrs[j]? = some a →
+      WF f a = true ∧ (decodeAll a).length = rows.length :=
+  C03_wf_px true ext (fun _ => hne) fields rows arrs hschema hplain hsafe hext hrows h
 
 /-- the former headline is the special case `coveredF ⊆ coveredPF` -/
 theorem C03_wf'_of'' (ext : Ext) (fields : List Field) (rows : List SVal) (arrs : List Arr)
@@ -386,7 +444,7 @@ theorem exView_not_safe : ∀ root0, newRoot exViewFields = .ok root0 → ¬ Saf
 theorem exView_ok : (toMarrow {} exViewFields exViewRows).isOk = true ∧
     (toMarrow {} exViewFields [.record "R" (.cons "s" 0 .none .nil)]).isOk = true := by decide +kernel
 
-example : exViewFields.all Lemmas.C03.coveredPF = true ∧ exViewFields.all Build.coveredF = false ∧
+example : exViewFields.all (Lemmas.C03.coveredPF false) = true ∧ exViewFields.all Build.coveredF = false ∧
     exViewFields.all Build.coveredWF = false := by decide +kernel
 
 theorem exExtOK : Lemmas.C03.ExtOK {} :=
